@@ -238,4 +238,20 @@ CHECKS = {
                 "connections.",
         "assumptions": COMMON_ASSUME + ["scripts that make the server close the whole connection (key-mismatch bodies, sequence violations) are not part of this domain: that effect on neighbours is the protocol's"],
     },
+    "C14": {
+        "quick": 500, "thorough": 25000,
+        "fuzz": [{"name": "FuzzC14ServerStream", "seconds": 120}],
+        "rule": "rapid draws a configuration (C10's generator plus odd-but-loadable users: bcrypt authenticator without hash, without "
+                "options, with non-hex or truncated hash, accounters with empty option keys, users with nothing, empty rule/service/"
+                "value/group entries; YAML or JSON) and 1..4 hostile connections of 1..8 chunks each: packets of authentication "
+                "scripts in every handler state (with follow-ups), authorizations incl. degenerate arguments, accounting with any "
+                "flag octet, well-formed bodies of other packet types, each optionally with 1..3 mutated cleartext octets, cut "
+                "short, or with mutated header octets; random garbage; headers announcing 0..2^32-1 bytes with short tails; ending "
+                "in EOF or silence. Oracle: no handler panics (a wrapping handler records and recovers them; a panic outside a "
+                "handler kills the test process, which the driver reports with the journalled case), and before/after every hostile "
+                "connection a fresh control connection completes a known-good PAP login with PASS. Thorough adds native "
+                "coverage-guided fuzzing of the whole reference server through the scripted transport (state reset per input). "
+                "Non-trivial: packets of the hostile connections reached handlers (more invocations than control logins).",
+        "assumptions": COMMON_ASSUME + ["components not registered by cmds/server/main.go (SPAN, DNS provider, syslog accounter, HAProxy header) are outside the check"],
+    },
 }
